@@ -142,6 +142,21 @@ def r19_2_callers(ctx):
     ctx.check(ok and len(raises) == 1 and all(raises[0].lineno < r.lineno for r in ret), "R19.2", "invoke:check-direction-and-order", f"invoke must refuse unless type_spec_is_assignable_to(arg.type_spec(), arg_type); found call {u(c)}", inv.where, fact={"call": u(c)})
     loop = [a for a in q.ancestors(c) if isinstance(a, ast.For)]
     ctx.check(bool(loop) and u(loop[0].iter) == "enumerate(args)", "R19.2", "invoke:every-argument", "every argument must be checked", inv.where, fact={})
+    # whether the test is reached may depend only on this call's arguments and the declared parameter types - not on what
+    # earlier calls did (a memo of "already checked" kinds would admit a differently shaped value of the same Python class)
+    allowed_self = {"expected_arg_types", "argument_count", "arguments", "abi_args", "by_ref_args"}
+    foreign = []
+    for gtext, _pol in q.rguards(inv.node, c):
+        try:
+            gexpr = ast.parse(gtext, mode="eval").body
+        except SyntaxError:
+            continue
+        for n in ast.walk(gexpr):
+            if isinstance(n, ast.Attribute) and isinstance(n.value, ast.Name) and n.value.id in ("self", "cls") and n.attr not in allowed_self:
+                foreign.append(f"{u(n)} in `{gtext}`")
+            if isinstance(n, ast.Name) and n.id not in ("self", "cls") and n.id in ctx.model.module("pyteal.ast.subroutine").assigns:
+                foreign.append(f"module state {n.id} in `{gtext}`")
+    ctx.check(not foreign, "R19.2", "invoke:check-not-memoised", f"reaching the assignability test depends on state outside this call: {foreign[:2]}", inv.where, fact={"guards": [g for g, _ in q.rguards(inv.node, c)]})
     mc = ctx.model.find_func("InnerTxnBuilder.MethodCall", "pyteal.ast.itxn")
     ctx.analysed(mc.fq)
     calls = q.calls_named(mc.node, "type_spec_is_assignable_to", into_nested=False)
@@ -164,9 +179,49 @@ def r19_2_callers(ctx):
     ctx.require_min("R19.2", 5)
 
 
+def r19_3_set(ctx):
+    from rules.abicommon import AbiWorld
+
+    ctx.rule("R19.3", "assignment between ABI values: whenever x.set(y) accepts an ABI value y of another type (the storage is copied as is), the two types have the same ARC-4 layout - over all ordered pairs of a universe of scalar, byte-string, array and tuple types, with the repository's own value classes interpreted")
+    shapes = [("bool",), ("byte",), ("uint", 8), ("uint", 16), ("uint", 32), ("uint", 64), ("address",), ("string",), ("bytes_dyn",), ("bytes_static", 32), ("bytes_static", 3), ("darr", ("bool",)), ("darr", ("uint", 8)), ("darr", ("byte",)), ("darr", ("uint", 16)), ("sarr", ("uint", 8), 32), ("sarr", ("byte",), 3), ("sarr", ("bool",), 8), ("sarr", ("bool",), 3),
+              ("tuple", (("uint", 64), ("bool",))), ("tuple", (("uint", 64),)), ("tuple", (("byte",),)), ("sarr", ("uint", 64), 2), ("sarr", ("uint", 64), 3), ("sarr", ("uint", 16), 2), ("darr", ("string",)), ("darr", ("darr", ("byte",)))]
+    W = AbiWorld(ctx)
+    W.real_bases = {"BaseType"}
+    n = acc = 0
+    unsound = []
+    for T in shapes:
+        for V in shapes:
+            try:
+                t = W.spec(T).methods["new_instance"]()
+                v = W.spec(V).methods["new_instance"]()
+            except Raised as r:
+                raise AnalysisError(f"R19.3: cannot build values of {arc4.sig(T)} / {arc4.sig(V)}: {r.exc_text[:60]}")
+            n += 1
+            try:
+                t.methods["set"](v)
+            except Raised:
+                continue
+            acc += 1
+            if T[0] == "tuple":
+                # Tuple.set takes the member values: one value for a one-member tuple sets that member
+                ok = len(T[1]) == 1 and sound(V, T[1][0])
+            else:
+                ok = sound(V, T)
+            if not ok:
+                unsound.append((V, T))
+    c = ctx.model.find_class("BaseType", "pyteal.ast.abi.type")
+    for V, T in unsound[:8]:
+        ctx.bad("R19.3", f"set[{arc4.sig(T)} <- {arc4.sig(V)}]", f"{arc4.sig(T)}.set(<{arc4.sig(V)}>) is accepted but the ARC-4 layouts differ ({arc4.layout(V)} vs {arc4.layout(T)}): the copied bytes are not an encoding of {arc4.sig(T)}", ctx.model.find_class(arc4.class_of(T).replace("TypeSpec", "")).where if ctx.model.try_class(arc4.class_of(T).replace("TypeSpec", "")) else c.where)
+    ctx.instances["R19.3"] = ctx.instances.get("R19.3", 0) + n
+    ctx.ok("R19.3", "universe", {"shapes": len(shapes), "pairs": n, "accepted": acc, "unsound": len(unsound)}, c.where)
+    q.need(acc >= len(shapes) - 2, f"R19.3: only {acc} assignments accepted - same-type assignment no longer works in the abstract world")
+    ctx.require_min("R19.3", 500)
+
+
 def run(ctx):
     r19_1_relation(ctx)
     r19_2_callers(ctx)
+    r19_3_set(ctx)
     return (
         "Finite abstract evaluation of type_spec_is_assignable_to over every ordered pair of a bounded universe of nested ARC-4 shapes (class membership from the repository's "
         "own hierarchy) against ARC-4 layout classes; documented table; callers check the relation in the right direction before passing storage. Equality of encodings of "
